@@ -95,7 +95,7 @@ var caseShrinkMemo = map[string]shrunkCase{}
 // shrinkCase normalises a violating lattice point to its minimal form: the first point, in the
 // simplest-first order of (fee, exit fee, reserve at position I, reserve at position J), with the same pool type, operation, positions,
 // weights / scaling factors, further reserves and trade size that raises the same assertion.
-func shrinkCase(c Case, assertion string) shrunkCase {
+func shrinkCase(c Case, assertion, detail string) shrunkCase {
 	pi, pj := c.pos()
 	others := append([]string{}, c.Reserves...)
 	others[pi], others[pj] = "*", "*"
@@ -142,7 +142,10 @@ func shrinkCase(c Case, assertion string) shrunkCase {
 			}
 		}
 	}
-	panic("shrinkCase: the violating point itself is in the candidate set")
+	// the point itself (its reserves need not be lattice values on the multi-asset faces)
+	m := shrunkCase{c, detail}
+	caseShrinkMemo[key] = m
+	return m
 }
 
 func runCase(sk *collector, c Case) {
@@ -161,7 +164,7 @@ func runCase(sk *collector, c Case) {
 	sk.r.States++
 	for _, v := range ps.viols {
 		sk.r.Extra["sum_violating_points_"+v.assertion] = asInt(sk.r.Extra["sum_violating_points_"+v.assertion]) + 1
-		m := shrinkCase(c, v.assertion)
+		m := shrinkCase(c, v.assertion, v.detail)
 		sk.violation(v.assertion, m.c.sig(), m.detail, m.c)
 	}
 	if sk.r.States%997 == 1 {
